@@ -255,10 +255,11 @@ HARNESSES = [
 ]
 
 MANIFEST = dict(
-    text='Bounded solver-driven program exploration against the real DB/Connection: step codes (13 operations including '
-         'commits failing in each 2PC phase before/after the connection, and close/reopen) are solver variables; the bounded '
+    text='Bounded solver-driven program exploration against the real DB/Connection: step codes (16 operations including '
+         'commits failing in each 2PC phase before/after the connection, a commit failing while the connection serialises, a conflicting '
+         'commit by another connection, and close/reopen) are solver variables; the bounded '
          'program space is exhausted and an ownership/state model is compared after every step together with the records '
          'each commit wrote.',
-    note='object values concrete; program length bounded (3 exhaustively, 4 by shards, 5 thorough); savepoints in C12, blobs in C13.',
+    note='object values concrete; program length bounded (3 exhaustively, 4 by shards, 5 thorough); savepoints in C12, blobs in C13; multi-database: two databases, one connection group (multidb).',
     design_ref='DESIGN.md section 4, C11',
 )
